@@ -406,6 +406,37 @@ class ExtractHelper(ast.NodeTransformer):
         return out
 
 
+# ---- rows-alias: inside the methods of the module classes `self._nodes_in_view` -> `self.nodes.index.to_numpy()` and
+#      `self._edges_in_view` -> `self.edges.index.to_numpy()` (loads only; not where the lists are defined: __init__, _init_view,
+#      _set_inds_in_view, nor in functions that assign them).  A view's tables are cut out of the base's tables with exactly these labels
+#      and a module's lists are read off its tables, so both spellings denote the same labels.
+class RowsAlias(ast.NodeTransformer):
+    n = 0
+    SKIP = {"__init__", "_init_view", "_set_inds_in_view", "_update_view", "view"}
+
+    def visit_ClassDef(self, node):
+        if node.name not in ("Module", "Network", "Cell", "Branch", "Compartment"):
+            return node
+        for st in node.body:
+            if isinstance(st, ast.FunctionDef) and st.name not in self.SKIP and \
+                    not any(isinstance(x, ast.Attribute) and isinstance(x.ctx, ast.Store) and x.attr in ("_nodes_in_view", "_edges_in_view") for x in ast.walk(st)):
+                self._fn(st)
+        return node
+
+    def _fn(self, fn):
+        outer = self
+
+        class R(ast.NodeTransformer):
+            def visit_Attribute(self, x):
+                self.generic_visit(x)
+                if isinstance(x.ctx, ast.Load) and x.attr in ("_nodes_in_view", "_edges_in_view") and isinstance(x.value, ast.Name) and x.value.id == "self":
+                    outer.__class__.n += 1
+                    tbl = ast.Attribute(value=ast.Name(id="self", ctx=ast.Load()), attr="nodes" if x.attr == "_nodes_in_view" else "edges", ctx=ast.Load())
+                    return ast.Call(func=ast.Attribute(value=ast.Attribute(value=tbl, attr="index", ctx=ast.Load()), attr="to_numpy", ctx=ast.Load()), args=[], keywords=[])
+                return x
+        fn.body = [R().visit(st) for st in fn.body]
+
+
 _old_apply3 = apply
 
 
@@ -416,6 +447,8 @@ def apply(dst, mode):   # noqa: F811
         ExtractHelper.n = 0
         n_ = _simple_apply(dst, ExtractHelper)
         return n_ // ExtractHelper.every
+    if mode == "rows-alias":
+        return _simple_apply(dst, RowsAlias)
     if mode == "default-if":
         return _simple_apply(dst, DefaultIf)
     if mode == "early-continue":
